@@ -96,6 +96,28 @@ func (g *c11Gen) data(depth int) *amlData {
 	return d
 }
 
+// scalar generates constant or string data (no packages, no buffers).
+func (g *c11Gen) scalar() *amlData {
+	k := rapid.SampledFrom([]string{"zero", "one", "ones", "byte", "word", "dword", "qword", "string"}).Draw(g.t, "scalark")
+	d := &amlData{K: k}
+	switch k {
+	case "byte":
+		d.V = uint64(rapid.Uint8().Draw(g.t, "v8"))
+	case "word":
+		d.V = uint64(rapid.Uint16().Draw(g.t, "v16"))
+	case "dword":
+		d.V = uint64(rapid.Uint32().Draw(g.t, "v32"))
+	case "qword":
+		d.V = rapid.Uint64().Draw(g.t, "v64")
+	case "string":
+		n := rapid.IntRange(0, 12).Draw(g.t, "slen")
+		for i := 0; i < n; i++ {
+			d.S = append(d.S, byte(rapid.IntRange(1, 0x7f).Draw(g.t, "ch")))
+		}
+	}
+	return d
+}
+
 // body generates the contents of a container whose namespace path is abs.
 func (g *c11Gen) body(abs string, depth int) []amlObj {
 	n := rapid.IntRange(0, 5).Draw(g.t, "nobjs")
@@ -396,7 +418,7 @@ func (g *c11Gen) stmts(m *amlObj, methods, datas []c11Sym, depth int, inDeferred
 	n := rapid.IntRange(0, 4).Draw(g.t, "nstmts")
 	var out []amlStmt
 	for i := 0; i < n; i++ {
-		k := rapid.SampledFrom([]string{"store", "store", "expr", "expr", "return", "inc", "if", "while", "binop", "misc", "misc"}).Draw(g.t, "stmtk")
+		k := rapid.SampledFrom([]string{"store", "store", "expr", "expr", "return", "inc", "if", "while", "binop", "misc", "misc", "decl", "decl"}).Draw(g.t, "stmtk")
 		if depth >= 2 && (k == "if" || k == "while") {
 			k = "store"
 		}
@@ -421,6 +443,46 @@ func (g *c11Gen) stmts(m *amlObj, methods, datas []c11Sym, depth int, inDeferred
 			s.E = g.expr(m, methods, datas, 0)
 		case "inc":
 			s.T = g.target(false)
+		case "decl":
+			// a named object created by the method: it lives in the method's scope
+			g.stats.methodDecls++
+			nm := g.name()
+			o := amlObj{K: rapid.SampledFrom([]string{"name", "name", "name", "mutex", "event", "opregion"}).Draw(g.t, "declk"), Name: amlSeg(nm), Abs: c11JoinPath(m.Abs, nm)}
+			switch o.K {
+			case "name":
+				compound := rapid.IntRange(0, 2).Draw(g.t, "compound") == 0
+				if compound && inDeferred && !g.allowTermsAfterBlock {
+					// buffers and packages carry a package length: same class as F-C11e
+					vlib.For("C11").Exclude("F-C11e Buffer/Package data inside a While body replaced by a scalar")
+					compound = false
+				}
+				if compound {
+					o.Data = g.data(1) // may be a buffer or a package
+				} else {
+					o.Data = g.scalar()
+				}
+			case "mutex":
+				o.Flags = uint8(rapid.IntRange(0, 15).Draw(g.t, "sync"))
+			case "opregion":
+				o.Space = uint8(rapid.IntRange(0, 9).Draw(g.t, "space"))
+				o.OffK = rapid.SampledFrom([]string{"zero", "one", "byte", "word", "dword", "qword"}).Draw(g.t, "offk")
+				o.LenK = rapid.SampledFrom([]string{"one", "byte", "word", "dword"}).Draw(g.t, "lenk")
+				o.Offset = rapid.Uint64().Draw(g.t, "off")
+				o.Len = rapid.Uint64().Draw(g.t, "len")
+			}
+			s.Obj = &o
+			withField := o.K == "opregion" && rapid.Bool().Draw(g.t, "declfield")
+			if withField && inDeferred && !g.allowTermsAfterBlock {
+				// a Field carries a package length like If/While: same class as F-C11e
+				vlib.For("C11").Exclude("F-C11e Field inside a While body left out")
+				withField = false
+			}
+			if withField {
+				out = append(out, s)
+				f := amlObj{K: "field", Region: amlSeg(nm), Abs: m.Abs, W: g.width(), Flags: uint8(rapid.IntRange(0, 5).Draw(g.t, "facc")) | uint8(rapid.IntRange(0, 1).Draw(g.t, "flock"))<<4 | uint8(rapid.IntRange(0, 2).Draw(g.t, "fupd"))<<5}
+				f.Elems = g.fieldElems()
+				s = amlStmt{K: "decl", Obj: &f}
+			}
 		case "misc":
 			g.stats.miscStmts++
 			mk := rapid.SampledFrom([]string{"noop", "breakpoint", "sleep", "stall", "decrement", "notify", "acquire", "release", "reset", "signal", "wait", "break", "continue"}).Draw(g.t, "misck")
@@ -672,6 +734,7 @@ func TestVerifC11(t *testing.T) {
 		add(g.stats.miscStmts > 0, "misc-statement(noop/sleep/notify/acquire/...)")
 		add(g.stats.miscExprs > 0, "misc-operator(unary/index/divide/sizeof/...)")
 		add(g.stats.hugePkg > 0, "package-longer-than-1MiB")
+		add(g.stats.methodDecls > 0, "object-declared-in-method-body")
 		labels = append(labels, fmt.Sprintf("tables=%d", g.stats.tables))
 		st.Case(c, (g.stats.scopeDirectives > 0 || g.stats.relocated > 0) && g.stats.callsWithArgs > 0, labels...)
 		if fail != nil && strings.HasPrefix(fail.Msg, "VERIF-HARNESS") {
